@@ -91,7 +91,11 @@ class Node:
 
 LEAN_KINDS = {"dense", "diag", "cdiag", "toep", "cmul", "mulc", "mm", "sum", "addeddiag", "masked", "interp", "bdiag", "binter", "sbatch",
               # classes with the default (reverse sweep through `_matmul`) derivative, and Mul's root branch
-              "psdsum", "kpad", "sumkron", "root", "lowrankroot", "lrrad", "tri", "chol", "mul", "kron", "kdiag", "mT", "cat"}
+              "psdsum", "kpad", "sumkron", "root", "lowrankroot", "lrrad", "tri", "chol", "mul", "kron", "kdiag", "mT", "cat",
+              # KernelLinearOperator with the catalogue's bilinear covariance closure (encoded by its dense function, see emit)
+              "kernel",
+              # CatLinearOperator along a batch dimension: each batch member is a member of one part
+              "catb"}
 
 
 def lean_ok(node):
@@ -143,6 +147,8 @@ def shape_of(node):
         return m, n
     if k == "kernel":
         return x["n1"], x["n2"]
+    if k == "catb":
+        return shape_of(node.kids[0])
     if k == "cat":
         (a, b), (c, d) = shape_of(node.kids[0]), shape_of(node.kids[1])
         return (a + c, b) if x["dim"] == -2 else (a, b + d)
@@ -226,6 +232,8 @@ def build(node, P, nb):
         x1 = _full(P, node.leaves[0], nb, (x["n1"], x["f"]))
         x2 = x1 if x.get("tied") else _full(P, node.leaves[1], nb, (x["n2"], x["f"]))
         return O.KernelLinearOperator(x1, x2, poly_kernel)
+    if k == "catb":  # CatLinearOperator along the FIRST batch dimension: the parts have batch `inner`, the node inner[0]*2
+        return O.CatLinearOperator(kid(0, tuple(x["inner"])), kid(1, tuple(x["inner"])), dim=0)
     if k == "cat":
         return O.CatLinearOperator(kid(0), kid(1), dim=x["dim"])
     raise KeyError(k)
@@ -303,6 +311,8 @@ def dense(node, P, nb):
         x1 = _full(P, node.leaves[0], nb, (x["n1"], x["f"]))
         x2 = x1 if x.get("tied") else _full(P, node.leaves[1], nb, (x["n2"], x["f"]))
         return x1 @ x2.mT
+    if k == "catb":
+        return torch.cat([kid(0, tuple(x["inner"])), kid(1, tuple(x["inner"]))], 0)
     if k == "cat":
         return torch.cat([kid(0), kid(1)], x["dim"])
     raise KeyError(k)
@@ -392,6 +402,19 @@ def emit(node, P, nb, midx):
     if k == "mT":
         t, s = emit(node.kids[0], P, nb, midx)
         return ["tr"] + t, s
+    if k == "kernel":
+        # KernelLinearOperator with the catalogue's covariance closure k(x1, x2) = x1 x2^T (default derivative = autograd THROUGH the
+        # closure down to x1, x2).  The closure itself is not a model constructor: the instance is encoded by the dense function it
+        # denotes, Matmul(Dense(x1), Dense(x2)^T) — the gradient of a given dense function w.r.t. given leaves is unique, so the
+        # model states exactly what x1, x2 must receive (a tied x1 = x2 accumulates both uses under the same leaf name).
+        s1 = _member(P, node.leaves[0], nb, (x["n1"], x["f"]), midx)
+        s2 = _member(P, node.leaves[0] if x.get("tied") else node.leaves[1], nb, (x["n2"], x["f"]), midx)
+        return ["mm", "dense", str(x["n1"]), str(x["f"]), "tr", "dense", str(x["n2"]), str(x["f"])], s1 + s2
+    if k == "catb":  # batch member midx of a Cat along batch dim 0 IS a batch member of one of the parts
+        inner = tuple(x["inner"])
+        if midx[0] < inner[0]:
+            return emit(node.kids[0], P, inner, tuple(midx))
+        return emit(node.kids[1], P, inner, (midx[0] - inner[0],) + tuple(midx[1:]))
     if k == "cat":
         ta, sa = emit(node.kids[0], P, nb, midx)
         tb, sb = emit(node.kids[1], P, nb, midx)
@@ -668,4 +691,14 @@ def instances(rng, batch, n, mode="full", psd=False, only_cpat=False, rpat_only=
     add("Masked(Kronecker)", lambda c, nb: Masked(c, nb, Kron(Dense(c, nb, 2, 2), Dense(c, nb, 2, n))), light=True)
     add("Matmul(Triangular,Kronecker)", lambda c, nb: Node("mm", [Node("tri", leaves=[c.leaf("L", nb, (4, 4), gtril)], n=4, upper=True),
                                                                   Kron(Dense(c, nb, 2, 1), Dense(c, nb, 2, 2))]), light=True)
+    # CatLinearOperator along a BATCH dimension (session 5): parts of batch B, node batch (2·B[0], *B[1:]); default derivative =
+    # autograd through the per-part `_matmul` on the batch slices; in the Lean encoding a batch member is a member of one part
+    if B:
+        topB = (2 * B[0],) + B[1:]
+        CatB = lambda a, b, nb: Node("catb", [a, b], inner=tuple(nb), nbtop=(2 * nb[0],) + tuple(nb[1:]))  # noqa
+        add("Cat<batch>(Dense,Dense)", lambda c, nb: CatB(Dense(c, nb, n, n + 1), Dense(c, nb, n, n + 1), nb), light=True)
+        add("Cat<batch>(Matmul(Dense,Diag),Toeplitz)", lambda c, nb: CatB(Node("mm", [Dense(c, nb, n, n), Diag(c, nb, n, pos=False)]), Toep(c, nb, n), nb),
+            exact=False, light=True)
+        add("Sum(Cat<batch>(Dense,Kronecker),Dense)", lambda c, nb: Node("sum", [CatB(Dense(c, nb, 4, 4), Kron(Dense(c, nb, 2, 2), Dense(c, nb, 2, 2)), nb),
+                                                                              Dense(c, topB, 4, 4)], nbtop=topB), light=True)
     return out
